@@ -39,7 +39,14 @@
      clock is monotone ([Tick]); the note is a monotone flag with an optional expiry ([Notify]).
    * nsync_wait_n callers: cv_enqueue, the ready_time / P loop, cv_dequeue with a record of their own
      (is_mucv = false), and the release / re-acquisition of the mutex if the caller holds it.
-   * Client contract = the [Crash] pcs: re-locking a held mutex, unlocking a free one, waiting without holding.
+   * Client contract = the [Crash] pcs: re-locking a held mutex, unlocking a free one, waiting without holding
+     the mutex in the mode its word shows (nsync_mu_unlock / runlock panic in the C code).  A crashed thread stops.
+   * Ghost state (used by the theorems only, never read by a step): [live] and [dead_touch] (accesses to records of
+     returned nsync_wait_n calls), [taker] (who unlinked a record from the cv queue), [loc] (on which list a record
+     is: cv queue / private list of waker t / mutex queue / dequeued by an unlocker / none), [held], [rets] (log of
+     the returns with the facts C04_outcome / C05 talk about), [mspin], and in the locals w_entry, w_toclk, w_pafter.
+   * The semaphore of a thread is shared by its cv sleeps and its mutex sleeps (one waiter struct per thread), so
+     the model lets the environment post it ([EnvV]) at any time; a consumed post is always a step of its owner.
    No proofs in this file. *)
 From NsyncBase Require Import CSem.
 From NsyncGen Require Import Consts Sites.
@@ -292,17 +299,17 @@ Fixpoint sig_scan (rs : nat -> rec) (q : list nat) (wokew : bool) : list nat * l
   match q with
   | [] => ([], [], wokew)
   | p :: rest =>
-  if is_rdr (rs p) then let '(wk, kp, ww) := sig_scan rs rest wokew in (p :: wk, kp, ww)
-  else if negb wokew then let '(wk, kp, ww) := sig_scan rs rest true in (p :: wk, kp, ww)
-  else let '(wk, kp, ww) := sig_scan rs rest wokew in (wk, p :: kp, ww)
+      if is_rdr (rs p) then let '(wk, kp, ww) := sig_scan rs rest wokew in (p :: wk, kp, ww)
+      else if negb wokew then let '(wk, kp, ww) := sig_scan rs rest true in (p :: wk, kp, ww)
+      else let '(wk, kp, ww) := sig_scan rs rest wokew in (wk, p :: kp, ww)
   end.
 (* (to_wake_list, remaining queue, all_readers) *)
 Definition sel_signal (rs : nat -> rec) (q : list nat) : list nat * list nat * bool :=
   match q with
   | [] => ([], [], false)
   | first :: rest =>
-  if is_rdr (rs first) then let '(wk, kp, ww) := sig_scan rs rest false in (first :: wk, kp, negb ww)
-  else ([first], rest, false)
+      if is_rdr (rs first) then let '(wk, kp, ww) := sig_scan rs rest false in (first :: wk, kp, negb ww)
+      else ([first], rest, false)
   end.
 Definition sel_broadcast (rs : nat -> rec) (q : list nat) : list nat * list nat * bool :=
   (q, [], forallb (fun p => is_rdr (rs p)) q).
@@ -313,18 +320,18 @@ Fixpoint xfer_rest (rs : nat -> rec) (fca fw : bool) (q : list nat) (taw war : b
   match q with
   | [] => ([], [], taw, war)
   | p :: rest =>
-  let piw := is_mucv (rs p) && is_W (l_type (rs p)) in
-  if negb (is_mucv (rs p)) then let '(m, s, a, b) := xfer_rest rs fca fw rest taw war in (m, p :: s, a, b)
-  else if fca || fw || piw then let '(m, s, a, b) := xfer_rest rs fca fw rest (taw || piw) war in (p :: m, s, a, b)
-  else let '(m, s, a, b) := xfer_rest rs fca fw rest taw (war || negb piw) in (m, p :: s, a, b)
+      let piw := is_mucv (rs p) && is_W (l_type (rs p)) in
+      if negb (is_mucv (rs p)) then let '(m, s, a, b) := xfer_rest rs fca fw rest taw war in (m, p :: s, a, b)
+      else if fca || fw || piw then let '(m, s, a, b) := xfer_rest rs fca fw rest (taw || piw) war in (p :: m, s, a, b)
+      else let '(m, s, a, b) := xfer_rest rs fca fw rest taw (war || negb piw) in (m, p :: s, a, b)
   end.
 Definition xfer (rs : nat -> rec) (fca : bool) (wake : list nat) : list nat * list nat * Z :=
   match wake with
   | [] => ([], [], 0)
   | first :: rest =>
-  let fw := is_W (l_type (rs first)) in
-  let '(m, s, a, b) := xfer_rest rs fca fw rest (if fca then fw else false) (if fca then false else negb fw) in
-  (if fca then first :: m else m, if fca then s else first :: s,
+      let fw := is_W (l_type (rs first)) in
+      let '(m, s, a, b) := xfer_rest rs fca fw rest (if fca then fw else false) (if fca then false else negb fw) in
+      (if fca then first :: m else m, if fca then s else first :: s,
        if a && negb b then MU_WRITER_WAITING else 0)
   end.
 (* apply g to the records listed in l *)
@@ -353,7 +360,7 @@ Definition begin_op (w : world) (t : nat) : world :=
   let s := get w t in
   match t_pc s, t_ops s with
   | Idle, o :: rest =>
-  let w1 := set_t w t (mk_t Idle rest (held s) (rets s)) in
+      let w1 := set_t w t (mk_t Idle rest (held s) (rets s)) in
   match o with
       | OLock m => set_pc w1 t (match held s with None => MLock m | Some _ => Crash 4 end)
       | OUnlock => set_pc w1 t (match held s with Some _ => MUnlock | None => Crash 1 end)
@@ -737,25 +744,25 @@ Definition step (w : world) (a : actor) (c : choice) : world * ev :=
   | Notify => (set_notified w true, EvEnv true)
   (* ----- ABSTRACT mutex internals ----- *)
   | MuEnv f =>
-  let f' := mu_flags (wrap_u 32 f) in
-  if match mspin w with Some _ => has f' MU_SPINLOCK | None => true end
-  then (set_muw w (mu_lockf (muw w) + f'), EvEnv true) else (w, EvEnv false)
+      let f' := mu_flags (wrap_u 32 f) in
+      if match mspin w with Some _ => has f' MU_SPINLOCK | None => true end
+      then (set_muw w (mu_lockf (muw w) + f'), EvEnv true) else (w, EvEnv false)
   | MuDeq r =>
-  if mem_id r (muq w) then
+      if mem_id r (muq w) then
         let x := recs w r in
         (set_mwake (set_muq (set_rec w r (r_set_loc (r_set_rcount x (wrap_u 32 (rcount x + 1))) PMwake)) (remove_id r (muq w))) (mwake w ++ [r]), EvEnv true)
-  else (w, EvEnv false)
+      else (w, EvEnv false)
   | MuWakeSt r =>
-  if mem_id r (mwake w) then
+      if mem_id r (mwake w) then
         (set_mwake (upd_rec w r (fun x => r_set_loc (r_set_waiting x 0) PNone)) (remove_id r (mwake w)), EvEnv true)
-  else (w, EvEnv false)
+      else (w, EvEnv false)
   | EnvV t => (set_sem w t (sem w t + 1), EvEnv true)
-  | EnvRc r =>
-  let x := recs w r in
-  if is_mucv x && rc_env_ok (t_pc (get w (owner x))) && negb (mem_id r (cvq w))
-  then (set_rec w r (r_set_rcount x (wrap_u 32 (rcount x + 1))), EvEnv true) else (w, EvEnv false)
+  | EnvRc r =>     (* only the waiter struct of a thread has a remove_count *)
+      let x := recs w r in
+      if Nat.ltb r (length (thr w)) && is_mucv x && rc_env_ok (t_pc (get w (owner x))) && negb (mem_id r (cvq w))
+      then (set_rec w r (r_set_rcount x (wrap_u 32 (rcount x + 1))), EvEnv true) else (w, EvEnv false)
   | EnvP t =>
-  match t_pc (get w t) with
+      match t_pc (get w t) with
       | Idle => if 0 <? sem w t then (set_sem w t (sem w t - 1), EvEnv true) else (w, EvEnv false)
       | _ => (w, EvEnv false)
       end
